@@ -414,6 +414,13 @@ def gating_checks_use_write_txn(ctx, s, root="pocket_db::Store::store_event"):
             # &txn coerced through Deref: the byref payload must be the value of the write-txn local
             ok = contains_value(v, lambda x: x[0] == "call" and x[1].endswith("::write_txn")) or \
                 (v[0] == "ref" and v[1][0] == "local" and v[1][1] in own)
+            if not ok:
+                # &txn coerced through Deref::deref(&txn): look at the receiver of the producing call
+                for pb, pinfo in an.calls():
+                    if pinfo["value"] == v and (pinfo["base"] or "").endswith("Deref::deref") and pb in an.cfg.dominators(b):
+                        r = pinfo["args"][0]
+                        if r[0] == "ref" and r[1][0] == "local" and r[1][1] in own:
+                            ok = True
             if contains_value(v, lambda x: x[0] == "call" and x[1].endswith("::read_txn")):
                 ok = False
         nm = s.nice(info["callee"]).split("::")[-1]
